@@ -269,6 +269,10 @@ func sameAddr(x, y ssa.Value) bool {
 		if SameLoadNoDom(fx.X, fy.X) {
 			return true
 		}
+		// base itself a field address (a record held by value: &m.acct.el)
+		if _, nested := fx.X.(*ssa.FieldAddr); nested && sameAddr(fx.X, fy.X) {
+			return true
+		}
 	}
 	return false
 }
